@@ -63,31 +63,47 @@ Proof.
   rewrite s_member_iff. split; [|tauto]. intros [A|A]; [lia|exact A].
 Qed.
 
+Lemma s_head_okb_iff ws : head_okb ws = true <-> head_okP ws.
+Proof.
+  unfold head_okb, head_okP, all_ones_word. destruct ws as [|w t].
+  - split; [intros _ x t E; discriminate|reflexivity].
+  - rewrite negb_true_iff, Z.eqb_neq. split.
+    + intros Hne x t' E. inversion E; subst. exact Hne.
+    + intros Hh. apply (Hh w t eq_refl).
+Qed.
+
+Lemma TInv_W o P off ws : TInv o P off ws -> TInvW o P off ws.
+Proof. intros T. constructor; apply T. Qed.
+
+Lemma TInvW_head o P off ws : TInvW o P off ws -> head_okP ws -> TInv o P off ws.
+Proof. intros T Hh. constructor; try apply T. exact Hh. Qed.
+
 (** one call *)
-Lemma check_step_sound o poff pws H p off ws r :
-  TInv o (memP H) poff pws -> words_ok ws ->
-  check_step o (poff, pws) (abs_step H p) p (off, ws, r) = true ->
-  TInv o (memP (abs_step H p)) off ws /\
+Lemma check_step_gen_sound (b : bool) o poff pws H p off ws r :
+  TInvW o (memP H) poff pws -> words_ok ws ->
+  check_step_gen b o (poff, pws) (abs_step H p) p (off, ws, r) = true ->
+  TInvW o (memP (abs_step H p)) off ws /\
+  (b = true -> head_okP ws) /\
   poff <= off /\ tb_end poff pws <= tb_end off ws /\
   (forall j, poff <= j < off -> memP (abs_step H p) j) /\
   result_ok o (abs_step H p) p r /\
   (p = PCompact -> tb_end off ws = tb_end poff pws).
 Proof.
-  intros T Hw E. unfold check_step, check_step_gen in E. cbv zeta in E.
+  intros T Hw E. unfold check_step_gen in E. cbv zeta in E.
   repeat (apply andb_true_iff in E; destruct E as [E ?]).
   rename H0 into Cop, H1 into Cst, H2 into Cend, H3 into Chd, H4 into Cpass, H5 into Cle.
   apply Z.eqb_eq in E. apply Z.leb_le in Cle. apply Z.leb_le in Cend.
   rewrite forallb_forall in Cpass.
   set (H' := abs_step H p) in *.
-  assert (Hge : o <= off) by (pose proof (ti_ge _ _ _ _ T); lia).
+  assert (Hge : o <= off) by (pose proof (tw_ge _ _ _ _ T); lia).
   assert (Hpass : forall j, poff <= j < off -> memP H' j).
   { intros j Hj. assert (A : member o H' j = true) by (apply Cpass; apply s_zrange_In; lia).
     apply s_member_iff in A. destruct A as [A|A]; [|exact A].
-    pose proof (ti_ge _ _ _ _ T). lia. }
+    pose proof (tw_ge _ _ _ _ T). lia. }
   assert (Hend : forall j, memP H' j -> j < tb_end off ws).
   { intros j A. unfold tb_end.
     assert (Hold : memP H j -> j < off + 64 * zlen ws).
-    { intros B. pose proof (ti_end _ _ _ _ T j B) as C. unfold tb_end in C. lia. }
+    { intros B. pose proof (tw_end _ _ _ _ T j B) as C. unfold tb_end in C. lia. }
     subst H'. destruct p as [idx| |k|k|f t|f t]; cbn [abs_step] in A; try (apply Hold; exact A).
     - apply s_memP_cons in A. destruct A as [A|A]; [apply Hold; exact A|].
       apply andb_true_iff in Cop. destruct Cop as [C _]. apply Z.ltb_lt in C. lia.
@@ -103,26 +119,40 @@ Proof.
       apply Z.eqb_eq in D2. apply zs_eqb_eq in D3. subst off ws.
       assert (HH : H' = H).
       { subst H'. destruct p; cbn [changes_set negb] in D1; try discriminate; reflexivity. }
-      rewrite HH. apply (ti_bits _ _ _ _ T).
+      rewrite HH. apply (tw_bits _ _ _ _ T).
     - apply (stored_ok_bits o H' off ws Hge Cst). }
-  split; [|split; [exact Cle|split; [unfold tb_end; exact Cend|split; [exact Hpass|split]]]].
+  split; [|split; [|split; [exact Cle|split; [unfold tb_end; exact Cend|split; [exact Hpass|split]]]]].
   - constructor.
     + exact E.
     + exact Hge.
     + exact Hw.
-    + intros w t Ews. subst ws. cbn [negb orb head_okb] in Chd.
-      apply negb_true_iff in Chd. apply Z.eqb_neq in Chd. exact Chd.
     + intros j Hj. destruct (Z_lt_le_dec j poff) as [A|A].
-      * destruct (ti_below _ _ _ _ T j A) as [B|B]; [left; exact B|right; apply memP_abs_step; exact B].
+      * destruct (tw_below _ _ _ _ T j A) as [B|B]; [left; exact B|right; apply memP_abs_step; exact B].
       * right. apply Hpass. lia.
     + exact Hbits.
     + exact Hend.
+  - intros ->. cbn [negb orb] in Chd. apply s_head_okb_iff. exact Chd.
   - subst H'. destruct p as [idx| |k|k|f t|f t]; cbn [result_ok];
       try (apply andb_true_iff in Cop; destruct Cop as [_ C]); try (apply Z.eqb_eq in C; exact C).
     + apply Z.eqb_eq in Cop. exact Cop.
     + apply Z.eqb_eq in Cop. exact Cop.
   - intros ->. apply andb_true_iff in Cop. destruct Cop as [C _]. apply Z.eqb_eq in C.
     unfold tb_end. exact C.
+Qed.
+
+Lemma check_step_sound o poff pws H p off ws r :
+  TInv o (memP H) poff pws -> words_ok ws ->
+  check_step o (poff, pws) (abs_step H p) p (off, ws, r) = true ->
+  TInv o (memP (abs_step H p)) off ws /\
+  poff <= off /\ tb_end poff pws <= tb_end off ws /\
+  (forall j, poff <= j < off -> memP (abs_step H p) j) /\
+  result_ok o (abs_step H p) p r /\
+  (p = PCompact -> tb_end off ws = tb_end poff pws).
+Proof.
+  intros T Hw E.
+  destruct (check_step_gen_sound true o poff pws H p off ws r (TInv_W _ _ _ _ T) Hw E)
+    as (A0 & Ah & A).
+  split; [|exact A]. apply TInvW_head; [exact A0|apply Ah; reflexivity].
 Qed.
 
 Lemma check_run_sound o : forall ps obs H poff pws,
@@ -174,7 +204,7 @@ Qed.
 Lemma s_zrange_length : forall n a, length (zrange a n) = n.
 Proof. induction n as [|n IH]; intros a; cbn [zrange length]; [reflexivity|]. now rewrite IH. Qed.
 
-Lemma TInv_stored_ok o H off ws : TInv o (memP H) off ws -> stored_ok o H off ws = true.
+Lemma TInv_stored_ok o H off ws : TInvW o (memP H) off ws -> stored_ok o H off ws = true.
 Proof.
   intros T. unfold stored_ok.
   assert (E : flat ws = map (member o H) (zrange off (64 * length ws))).
@@ -182,40 +212,38 @@ Proof.
     - rewrite map_length, s_zrange_length, flat_length. reflexivity.
     - intros n Hn. rewrite flat_length in Hn. rewrite s_nth_map_zrange by exact Hn.
       assert (R : off <= off + Z.of_nat n < tb_end off ws) by (unfold tb_end, zlen; lia).
-      pose proof (ti_bits _ _ _ _ T _ R) as B.
+      pose proof (tw_bits _ _ _ _ T _ R) as B.
       replace (off + Z.of_nat n - off) with (Z.of_nat n) in B by lia.
       unfold bitz in B. rewrite Nat2Z.id in B.
       apply eq_true_iff_eq. rewrite B, s_member_iff.
-      pose proof (ti_ge _ _ _ _ T). split; [tauto|]. intros [A|A]; [lia|exact A]. }
+      pose proof (tw_ge _ _ _ _ T). split; [tauto|]. intros [A|A]; [lia|exact A]. }
   rewrite <- E. apply s_bools_eqb_refl.
 Qed.
 
 Lemma s_if_same (c : bool) : (if c then true else true) = true.
 Proof. destruct c; reflexivity. Qed.
 
-Lemma check_step_complete o poff pws H p off ws r :
-  TInv o (memP (abs_step H p)) off ws ->
+Lemma check_step_gen_complete (b : bool) o poff pws H p off ws r :
+  TInvW o (memP (abs_step H p)) off ws -> (b = true -> head_okP ws) ->
   poff <= off -> tb_end poff pws <= tb_end off ws ->
   (forall j, poff <= j < off -> memP (abs_step H p) j) ->
   result_ok o (abs_step H p) p r ->
   (p = PCompact -> tb_end off ws = tb_end poff pws) ->
-  check_step o (poff, pws) (abs_step H p) p (off, ws, r) = true.
+  check_step_gen b o (poff, pws) (abs_step H p) p (off, ws, r) = true.
 Proof.
-  intros T Hle Hend Hpass Hres Hcmp. unfold check_step, check_step_gen. cbv zeta.
-  rewrite (proj2 (Z.eqb_eq _ _) (ti_align _ _ _ _ T)).
+  intros T Hh Hle Hend Hpass Hres Hcmp. unfold check_step_gen. cbv zeta.
+  rewrite (proj2 (Z.eqb_eq _ _) (tw_align _ _ _ _ T)).
   rewrite (proj2 (Z.leb_le _ _) Hle).
   assert (C3 : forallb (member o (abs_step H p)) (zrange poff (Z.to_nat (off - poff))) = true).
   { apply forallb_forall. intros x Hx. apply s_zrange_In in Hx. apply s_member_iff. right.
     apply Hpass. lia. }
   rewrite C3.
-  assert (C4 : negb true || head_okb ws = true).
-  { cbn [negb orb]. unfold head_okb. destruct ws as [|w t] eqn:E; [reflexivity|].
-    pose proof (ti_head _ _ _ _ T w t eq_refl) as Hne. unfold all_ones_word.
-    destruct (Z.eqb_spec w (2 ^ 64 - 1)); [contradiction|reflexivity]. }
+  assert (C4 : negb b || head_okb ws = true).
+  { destruct b; cbn [negb orb]; [|reflexivity]. apply s_head_okb_iff. apply Hh. reflexivity. }
   rewrite C4.
   unfold tb_end in Hend. rewrite (proj2 (Z.leb_le _ _) Hend).
   rewrite (TInv_stored_ok o _ off ws T), s_if_same. cbn [andb].
-  pose proof (ti_end _ _ _ _ T) as We. unfold tb_end in We.
+  pose proof (tw_end _ _ _ _ T) as We. unfold tb_end in We.
   destruct p as [idx| |j|j|f t|f t]; cbn [result_ok abs_step] in *.
   - subst r. rewrite Z.eqb_refl, andb_true_r. apply Z.ltb_lt. apply We.
     apply s_memP_cons. right. lia.
@@ -231,6 +259,18 @@ Proof.
     destruct (Z_le_gt_dec t f) as [A|A]; [left; apply Z.leb_le; exact A|right].
     apply Z.leb_le. assert (t - 1 < off + 64 * zlen ws); [|lia].
     apply We. apply s_memP_cons. right. lia.
+Qed.
+
+Lemma check_step_complete o poff pws H p off ws r :
+  TInv o (memP (abs_step H p)) off ws ->
+  poff <= off -> tb_end poff pws <= tb_end off ws ->
+  (forall j, poff <= j < off -> memP (abs_step H p) j) ->
+  result_ok o (abs_step H p) p r ->
+  (p = PCompact -> tb_end off ws = tb_end poff pws) ->
+  check_step o (poff, pws) (abs_step H p) p (off, ws, r) = true.
+Proof.
+  intros T. apply check_step_gen_complete; [apply TInv_W; exact T|].
+  intros _ w t E. apply (ti_head _ _ _ _ T w t E).
 Qed.
 
 Lemma check_run_complete o : forall ps obs H prev,
@@ -251,4 +291,31 @@ Proof.
   intros Ho Hw. split.
   - apply check_history_sound; assumption.
   - intros O. unfold check_history. apply check_run_complete. exact O.
+Qed.
+
+(** * the same for histories that start from a struct literal *)
+
+Lemma check_run_lit_iff o : forall ps obs (b : bool) (st : Prop) H poff pws,
+  (b = true <-> st) ->
+  TInvW o (memP H) poff pws ->
+  Forall (fun ob => words_ok (snd (fst ob))) obs ->
+  (check_run_lit b o (poff, pws) H ps obs = true <-> obs_ok_lit st o (poff, pws) H ps obs).
+Proof.
+  induction ps as [|p t IH]; intros obs b st H poff pws Hb T Hw; destruct obs as [|[[off ws] r] obs'];
+    cbn [check_run_lit obs_ok_lit]; try (split; [discriminate|contradiction]); [tauto|].
+  cbn [fst snd]. inversion Hw as [|x l Hw1 Hw2]; subst. cbn [fst snd] in Hw1.
+  assert (Hnow : (b || touches_head poff p) = true <-> (st \/ touches_head poff p = true)).
+  { rewrite orb_true_iff, Hb. tauto. }
+  assert (Hnext : ((b || touches_head poff p) || head_okb ws) = true <->
+                  ((st \/ touches_head poff p = true) \/ head_okP ws)).
+  { rewrite orb_true_iff, Hnow, s_head_okb_iff. tauto. }
+  rewrite andb_true_iff. split.
+  - intros [E1 E2].
+    destruct (check_step_gen_sound _ o poff pws H p off ws r T Hw1 E1) as (A0 & Ah & A1 & A2 & A3 & A4 & A5).
+    split; [exact A0|]. split; [intros S; apply Ah; apply Hnow; exact S|].
+    repeat (split; [assumption|]).
+    apply (IH obs' _ _ _ off ws Hnext A0 Hw2). exact E2.
+  - intros (A0 & Ah & A1 & A2 & A3 & A4 & A5 & A6). split.
+    + apply check_step_gen_complete; try assumption. intros S. apply Ah. apply Hnow. exact S.
+    + apply (IH obs' _ _ _ off ws Hnext A0 Hw2). exact A6.
 Qed.
